@@ -51,7 +51,7 @@ class Model:
             tr = i['trait']
             if tr:
                 n = (tr.get('path') or tr.get('name')).split('::')[-1]
-                if n in ('V1orV3', 'V2orV4', 'ImplicitAssertionCapable', 'VersionTrait', 'PurposeTrait'): self.markers.setdefault(n, set()).add(tname(i['for']))
+                if n in ('V1orV3', 'V2orV4', 'ImplicitAssertionCapable', 'VersionTrait', 'PurposeTrait', 'Default', 'Clone', 'Copy'): self.markers.setdefault(n, set()).add(tname(i['for']))
 
     def bounds_of(self, i, extra_generics=None):
         b = {}
@@ -75,8 +75,8 @@ class Model:
             for tr in bnds.get(g, []):
                 if tr in self.markers:
                     names = [m for m in self.markers[tr] if m in enum]
-                    if tr in ('V1orV3', 'V2orV4', 'ImplicitAssertionCapable', 'VersionTrait') and enum is VC: cons.append(Or(*[var == VC[m] for m in names] or [BoolVal(False)]))
-                    if tr == 'PurposeTrait' and enum is PC: cons.append(Or(*[var == PC[m] for m in names] or [BoolVal(False)]))
+                    if tr in ('V1orV3', 'V2orV4', 'ImplicitAssertionCapable', 'VersionTrait', 'Default', 'Clone', 'Copy') and enum is VC: cons.append(Or(*[var == VC[m] for m in names] or [BoolVal(False)]))
+                    if tr in ('PurposeTrait', 'Default', 'Clone', 'Copy') and enum is PC: cons.append(Or(*[var == PC[m] for m in names] or [BoolVal(False)]))
             return And(*cons) if cons else BoolVal(True)
         return BoolVal(False)
 
@@ -212,7 +212,7 @@ def run(ses):
         cons = []
         for i in M.impls:
             tr = i['trait']
-            if tr and (tr.get('path') or tr.get('name')).split('::')[-1] in ('From', 'TryFrom') and tname(i['for']) == kt:
+            if tr and (tr.get('path') or tr.get('name')).split('::')[-1] in ('From', 'TryFrom', 'Default') and tname(i['for']) == kt:
                 env = {}; a0, a1 = vp_args(targs(i['for']), kt); bnds = M.bounds_of(i)
                 src = (tr.get('args') or {}).get('angle_bracketed', {}).get('args', [])
                 srct = src[0].get('type') if src else None
@@ -221,15 +221,26 @@ def run(ses):
                     cs = [a for a in targs(srct) if 'const' in a]
                     if cs and str(cs[0]['const']).isdigit(): size = int(cs[0]['const'])
                     elif cs: size = 'any'          # a const generic parameter: the impl exists for every N
+                elif srct is not None and (tname(srct) or '').startswith('$'):
+                    size = 'any'                   # the source type is a type parameter (`From<&T> where T: AsRef<[u8]>`): fixed-size material of every length, and other protocols' keys, qualify
+                elif (tr.get('path') or tr.get('name')).split('::')[-1] == 'Default':
+                    size = 'default'               # constructible from nothing
                 f = And(M.constrain(a0, v, env, bnds, VC), M.constrain(a1, p, env, bnds, PC))
                 cons.append((f, size, tname(srct) if srct else None))
         if kt == 'PasetoSymmetricKey':
             r, m = ask('a symmetric key with purpose Public is constructible', [Or(*[f for f, _, _ in cons]) if cons else BoolVal(False), p == PC['Public']])
-            if r == 'sat': violations.append(('PasetoSymmetricKey<%s, Public> is constructible' % m[v], 'pub fn sk() { let _ = PasetoSymmetricKey::<%s, Public>::from(Key::<32>::from([0u8; 32])); }' % m[v]))
+            if r == 'sat':
+                violations.append(('PasetoSymmetricKey<%s, Public> is constructible' % m[v], 'pub fn sk() { let _ = PasetoSymmetricKey::<%s, Public>::from(Key::<32>::from([0u8; 32])); }' % m[v]))
+                if any(sz == 'default' for _, sz, _ in cons): violations.append(('PasetoSymmetricKey<%s, Public>::default() type-checks' % m[v], 'pub fn skd() { let _ = PasetoSymmetricKey::<%s, Public>::default(); }' % m[v]))
         else:
             r, m = ask('%s with purpose Local is constructible' % kt, [Or(*[f for f, _, _ in cons]) if cons else BoolVal(False), p == PC['Local']])
             if r == 'sat': violations.append(('%s<%s, Local> is constructible' % (kt, m[v]), 'pub fn ak(b: &\'static [u8]) { let k = Key::<64>::from([0u8; 64]); let _ = %s::<%s, Local>::from(&k); }' % (kt, m[v])))
-        sized = [(f, sz) for f, sz, src in cons if sz is not None]
+        if kt != 'PasetoSymmetricKey':
+            dflt = [f for f, sz, _ in cons if sz == 'default']
+            if dflt:
+                r, m = ask('%s is constructible without key material (Default)' % kt, [Or(*dflt)])
+                if r == 'sat': violations.append(('%s<%s,%s>::default() type-checks' % (kt, m[v], m[p]), 'pub fn dk() { let _ = %s::<%s, %s>::default(); }' % (kt, m[v], m[p])))
+        sized = [(f, sz) for f, sz, src in cons if sz is not None and sz != 'default']
         bad = []
         for f, sz in sized:
             right = Or(*[And(v == VC[ver], Or(*[n == x for x in sizes])) for (k_, ver), sizes in KEYSIZE_OK.items() if k_ == kt] or [BoolVal(False)])
